@@ -138,3 +138,70 @@ Proof. intros ND l. induction l as [|n l IH]; intros F; [reflexivity|].
   destruct (nth_error H (N.to_nat n)) as [r|] eqn:E; [|apply nth_error_None in E; lia].
   unfold name_of. rewrite E. unfold pos. rewrite (pos_from_nth_nodup H 0%N (N.to_nat n) r ND E).
   replace (0 + N.of_nat (N.to_nat n))%N with n by lia. reflexivity. Qed.
+
+(* ---------- the graph a planned command works on is the interned loaded history; its ids are positions of the history ---------- *)
+Definition graph_from (i:cmd_in) (G:graph) : Prop :=
+  exists M, R.load (c_revs i) (c_oracle i) = R.Ok M /\ intern M (c_ndeps i) = Some G.
+
+Lemma current_of_graph M H rws k : forall P : rres -> Prop, P RBad -> (forall e, P (RFail e)) -> (forall L, P (k L)) -> P (current_of M H rws k).
+Proof. intros P H1 H2 H3. unfold current_of. destruct (R.get_ids M rws) as [cr|e]; auto. destruct (opt_ids cr) as [cn|]; auto. destruct (pos_list H cn); auto. Qed.
+
+Definition graph_of_res (i:cmd_in) (r:rres) : Prop :=
+  match r with RPlanUp G _ _ _ | RPlanDown G _ _ _ _ => graph_from i G | _ => True end.
+
+Lemma resolve_graph i : graph_of_res i (resolve_cmd i).
+Proof. unfold resolve_cmd.
+  destruct (has_colon (c_target i)); [exact I|].
+  destruct (intern0 (c_revs i)); [|exact I].
+  destruct (Cycle.load g); [|exact I].
+  destruct (R.load (c_revs i) (c_oracle i)) as [M|e] eqn:EL; [|destruct e; exact I].
+  destruct (intern M (c_ndeps i)) as [G|] eqn:EI; [|exact I].
+  destruct (pos_list (c_revs i) (c_rows i)) as [rowsN|]; [|exact I].
+  destruct (c_up i).
+  - destruct (R.parse_upgrade_target M (c_rows i) (c_target i) true) as [els|e]; [|exact I].
+    destruct (elem_ids els) as [tn|]; [|exact I]. destruct (pos_list (c_revs i) tn); [|exact I].
+    apply current_of_graph; cbn; auto. intros _. exists M. auto.
+  - destruct (R.parse_downgrade_target M (c_rows i) (c_target i) true) as [[bl el]|]; [|exact I].
+    match goal with |- graph_of_res i (match ?x with _ => _ end) => destruct x as [target|] end; [|exact I].
+    match goal with |- graph_of_res i (match ?x with _ => _ end) => destruct x as [branch|r] eqn:EB end.
+    + apply current_of_graph; cbn; auto. intros _. exists M. auto.
+    + revert EB. destruct (match bl with Some (_ :: _) => _ | _ => _ end).
+      * destruct bl as [b|]; [|discriminate]. destruct (resolve_branch M b) as [[r'|]|e]; try (intros E; inversion E; subst; exact I).
+        destruct (pos (c_revs i) (R.s_id r')); intros E; inversion E; subst; exact I.
+      * discriminate.
+Qed.
+
+Lemma load_revs H o M : R.load H o = R.Ok M -> R.m_revs M = H.
+Proof. unfold R.load. destruct (negb (R.oracle_ok H o)); [discriminate|].
+  destruct (R.map_branch_labels H (map fst o) (map (fun r => (R.s_id r, R.s_id r)) H)); cbn [R.bind]; [|discriminate].
+  intros E. inversion E. reflexivity. Qed.
+
+
+
+Lemma intern_from_ids M nd : forall rs n G, intern_from M nd n rs = Some G ->
+  forall x, In x (ids G) -> (N.to_nat n <= N.to_nat x < N.to_nat n + length rs)%nat.
+Proof. induction rs as [|r rs IH]; intros n G E x Hx; cbn [intern_from] in E.
+  - inversion E; subst. destruct Hx.
+  - destruct (ndeps_of M nd r); [|discriminate].
+    destruct (pos_list (R.m_revs M) (R.s_down r)); [|discriminate].
+    destruct (pos_list (R.m_revs M) (R.s_deps r)); [|discriminate].
+    destruct (pos_list (R.m_revs M) l); [|discriminate].
+    destruct (intern_from M nd (N.succ n) rs) as [g|] eqn:EG; [|discriminate].
+    inversion E; subst. cbn in Hx. destruct Hx as [<-|Hx]; [cbn [length]; lia|].
+    specialize (IH _ _ EG x Hx). cbn [length]. lia. Qed.
+
+Theorem command_rows_reread : forall i ran rows,
+  cmd_pre i = true -> run_command i = COk ran rows -> NoDup (map R.s_id (c_revs i)) ->
+  match resolve_cmd i with
+  | RPlanUp G _ _ _ | RPlanDown G _ _ _ _ =>
+      exists rws, pos_list (c_revs i) rows = Some rws /\ state_okb G rws = true
+  | _ => False
+  end.
+Proof. intros i ran rows PRE E ND. pose proof (command_state_preserved i ran rows PRE E) as SP.
+  pose proof (resolve_graph i) as RG.
+  assert (K : forall G rws, graph_from i G -> state_okb G rws = true -> Forall (fun n => (N.to_nat n < length (c_revs i))%nat) rws).
+  { intros G rws [M [EL EI]] HS. apply Forall_forall. intros x Hx. unfold state_okb in HS.
+    destruct (pre_parts G rws HS) as [_ [_ Hsub]]. apply Hsub in Hx.
+    unfold intern in EI. pose proof (intern_from_ids M _ _ _ _ EI x Hx) as B. rewrite (load_revs _ _ _ EL) in B. cbn in B. lia. }
+  destruct (resolve_cmd i) as [|e|G rowsN T L|G rowsN target branch U]; auto; cbn in RG;
+    destruct SP as [rws [-> HS]]; exists rws; (split; [apply names_roundtrip; eauto|exact HS]). Qed.
